@@ -266,7 +266,7 @@ def eq_structural(ctx, diff, kinds, rational):
 def _one_component(tier):
     out = []
     for c in _all_classes():
-        for comp in ('knot', 'coord') + (('weight',) if c['rational'] else ()):
+        for comp in ('knot', 'coord', 'end_knot') + (('weight',) if c['rational'] else ()):
             # the statement is one-directional ("equal ONLY IF ... within the tolerance", "changing by MORE than the
             # tolerance makes them unequal"): it does not promise that a sub-tolerance change compares equal, so the
             # `near` case (|eps| < 1e-20 ==> equal) is not an obligation of the check (it would fire on an exact-equality
@@ -300,7 +300,20 @@ def one_component(ctx, kind, rational, comp, case, full):
             ctx.assume(ctx.gt(eps, -NEAR), ctx.lt(eps, NEAR))
     equal = (case == 'near')
     a = _obj(ctx, d)
-    if comp == 'knot':
+    if comp == 'end_knot':
+        # shapes that keep their knot vectors as given (normalize_kv=False): the first / last knot is lowered / raised
+        a = _obj(ctx, d, normalize_kv=False)
+        mag = eps if case == 'witness' else ctx.num('mag')
+        if case != 'witness':
+            ctx.assume(ctx.gt(mag, FAR))
+        for dr, U in enumerate(d['kvs']):
+            for idx, delta in ((0, -mag), (len(U) - 1, mag)):
+                V = list(U)
+                V[idx] = U[idx] + delta
+                kvs = list(d['kvs'])
+                kvs[dr] = V
+                _pair(ctx, '%s.end_knot.dir%d[%d]' % (case, dr, idx), a, _obj(ctx, d, kvs=kvs, normalize_kv=False), equal)
+    elif comp == 'knot':
         for dr, U in enumerate(d['kvs']):
             p = d['deg'][dr]
             for idx in range(p + 1, len(U) - p - 1):
